@@ -155,6 +155,8 @@ enum Op {
     /// the second most recent such message (an older, delayed one)
     DeliverPrev(u64, u64, &'static str),
     Restart(u64),
+    /// leadership transfer: a TimeoutNow from src (stamped with src's term) reaches dst
+    TimeoutNow(u64, u64),
 }
 
 struct Run {
@@ -262,6 +264,21 @@ impl Run {
                 dist.hit("op.restart");
                 (format!("GRestart {i}"), format!("restart({i})"), *i)
             }
+            Op::TimeoutNow(src, dst) => {
+                let before = self.sim.nodes[*dst as usize].current_term();
+                let tn = Message::TimeoutNow(tensor_chain::network::TimeoutNow {
+                    term: self.sim.nodes[*src as usize].current_term(),
+                    leader_id: name(*src),
+                });
+                let resp = self.sim.nodes[*dst as usize].handle_message(&name(*src), &tn);
+                if let Some(resp) = resp {
+                    self.sim.outs[*dst as usize].lock().push((name(*src), resp));
+                }
+                // refusal oracle bit: did the node start an election (believed leader and term matched)?
+                let ok = self.sim.nodes[*dst as usize].current_term() > before;
+                dist.hit(if ok { "op.timeout_now.accepted" } else { "op.timeout_now.ignored" });
+                (format!("GTimeoutNow {dst} {}", b(ok)), format!("timeout_now({src}->{dst})"), *dst)
+            }
         };
         let before = self.sim.pool.len() as u64;
         let envs = self.sim.drain(touched);
@@ -362,7 +379,7 @@ fn run_case(r: &mut Rng, dir: PathBuf, dist: &mut Dist, steps: usize, n: u64) ->
             match leader_now {
                 Some(l) => {
                     let li = if r.chance(5, 6) { l } else { any };
-                    if d < 40 { Op::Propose(li) } else if d < 80 { Op::Heartbeat(li) } else if d < 88 { elect(r) } else if d < 94 { Op::RequestVotes(any) } else { Op::Restart(any) }
+                    if d < 38 { Op::Propose(li) } else if d < 76 { Op::Heartbeat(li) } else if d < 80 { Op::TimeoutNow(l, any) } else if d < 88 { elect(r) } else if d < 94 { Op::RequestVotes(any) } else { Op::Restart(any) }
                 }
                 None => if d < 70 { elect(r) } else if d < 78 { Op::RequestVotes(any) } else if d < 90 { Op::Heartbeat(any) } else { Op::Restart(any) },
             }
@@ -436,6 +453,12 @@ fn main() {
         // (6) the same two with pre-vote messages interleaved and a 5-node cluster: votes of a minority
         let s6 = vec![Elect(0), dl(0, 1, "RV"), dl(1, 0, "RVR"), Elect(2), dl(2, 3, "RV"), dl(3, 2, "RVR"), dl(0, 4, "RV"), dl(2, 4, "RV"),
                       dl(4, 0, "RVR"), dl(4, 2, "RVR")];
+        // (7) leadership transfer: the leader's TimeoutNow makes a caught-up follower start an election at once
+        let mut s7 = elect(0, 1);
+        s7.extend(warm(0, 1));
+        s7.extend(vec![dl(0, 2, "AE"), TimeoutNow(0, 1), RequestVotes(1), dl(1, 2, "RV"), dl(2, 1, "RVR"), dl(1, 0, "RV"),
+                       Propose(1), Heartbeat(1), dl(1, 2, "AE"), dl(2, 1, "AER"), TimeoutNow(0, 2), TimeoutNow(1, 1)]);
+        scripts.push(("corpus leadership-transfer: ", s7));
         for (ci, (tag, script)) in scripts.iter().enumerate() {
             let k = Knobs { n: 3, pre_vote: false, fast_path: false, geometric: false, adaptive: false };
             let dir = args.out.join("wal").join(format!("corpus{ci}"));
